@@ -6,9 +6,11 @@ cd /repo || exit 2
 if ! git diff --quiet; then echo "/repo has uncommitted changes"; exit 2; fi
 git apply "$patch" || { echo "patch does not apply"; exit 2; }
 cd /verif
+rm -rf /root/scratch/evidence.bak; cp -r /verif/evidence /root/scratch/evidence.bak   # a seeded run must not leave its evidence behind
 for p in "$@"; do
   echo "=== $p"
   ./check "$p" quick 2>&1 | grep -E "^(VIOLATION|KNOWN-FINDING|OK)|violation:" | cut -c1-300 | head -8
 done
 git -C /repo checkout -- . 
+rm -rf /verif/evidence; mv /root/scratch/evidence.bak /verif/evidence
 echo "restored: $(git -C /repo status --short | wc -l) changes left"
